@@ -236,6 +236,10 @@ type IstioEgressListenerWrapper struct {
 	// Specifies whether matching ports is required.
 	matchPort bool
 
+	// The ~-prefixed exclusion entries of the hosts field, by namespace scope: a host excluded by an entry is
+	// not exposed through this listener, whichever way it would be imported.
+	excludedHosts map[string]hostClassification
+
 	// List of services imported by this egress listener above.
 	// This will be used by LDS and RDS code when
 	// building the set of virtual hosts or the tcp filterchain matches for
@@ -402,7 +406,7 @@ func (sc *SidecarScope) collectImportedServices(ps *PushContext, configNamespace
 				// (HostnameAndNamespace contains all services regardless of exportTo).
 				if s, ok := byNamespace[configNamespace]; ok && ps.IsServiceVisible(s, configNamespace) {
 					// This won't overwrite hostnames that have already been found eg because they were requested in hosts
-					if matchedSvc := serviceMatchingPort(ps.trimHiddenAlias(s, configNamespace), ilw, ports); matchedSvc != nil {
+					if matchedSvc := serviceMatchingPort(ps.trimHiddenAlias(s, configNamespace), ilw, ports); matchedSvc != nil && !ilw.excludes(matchedSvc) {
 						sc.appendSidecarServices(servicesAdded, matchedSvc)
 					}
 				} else {
@@ -420,7 +424,7 @@ func (sc *SidecarScope) collectImportedServices(ps *PushContext, configNamespace
 						pickNamespace = pickBestVisibleNamespace
 					}
 					if ns := pickNamespace(ps, byNamespace, configNamespace); ns != "" {
-						if matchedSvc := serviceMatchingPort(ps.trimHiddenAlias(byNamespace[ns], configNamespace), ilw, ports); matchedSvc != nil {
+						if matchedSvc := serviceMatchingPort(ps.trimHiddenAlias(byNamespace[ns], configNamespace), ilw, ports); matchedSvc != nil && !ilw.excludes(matchedSvc) {
 							sc.appendSidecarServices(servicesAdded, matchedSvc)
 						}
 					}
@@ -428,6 +432,21 @@ func (sc *SidecarScope) collectImportedServices(ps *PushContext, configNamespace
 			}
 		}
 	}
+}
+
+// excludes reports whether a ~-prefixed entry of the listener's hosts (scoped to the service's namespace or to
+// every namespace) covers the service: such a service is not exposed, also not as a VirtualService destination.
+func (ilw *IstioEgressListenerWrapper) excludes(s *Service) bool {
+	if ilw == nil || len(ilw.excludedHosts) == 0 {
+		return false
+	}
+	if hc, ok := ilw.excludedHosts[s.Attributes.Namespace]; ok && hc.Excluded(s.Hostname) {
+		return true
+	}
+	if hc, ok := ilw.excludedHosts[wildcardNamespace]; ok && hc.Excluded(s.Hostname) {
+		return true
+	}
+	return false
 }
 
 func (sc *SidecarScope) selectAuthnPolicies(ps *PushContext, configNamespace string) {
@@ -549,6 +568,14 @@ func convertIstioListenerToWrapper(ps *PushContext, configNamespace string,
 	}
 
 	out.virtualServices = SelectVirtualServices(ps.virtualServiceIndex, configNamespace, hostsByNamespace)
+	for ns, hc := range hostsByNamespace {
+		if len(hc.excludedHosts) > 0 {
+			if out.excludedHosts == nil {
+				out.excludedHosts = make(map[string]hostClassification)
+			}
+			out.excludedHosts[ns] = hostClassification{excludedHosts: hc.excludedHosts}
+		}
+	}
 	var svces []*Service
 	if allExactHosts {
 		svces = ps.servicesForExactHosts(configNamespace, hostsByNamespace)
